@@ -167,7 +167,23 @@ def drive(item):
     try:
         sims = key_sims()
         paths = materialise(layout, pool, sims, work, mult)
-        rec['observed'], rec['n_rows'] = observe(paths)
+        # the ways a user names the same files: a list of files, the directory
+        # that holds them (with and without a trailing slash), relative paths
+        form = idx % 4
+        cwd = os.getcwd()
+        try:
+            if form == 1:
+                paths = work
+            elif form == 2:
+                paths = work.rstrip('/') + '/'
+            elif form == 3:
+                os.chdir(work)
+                paths = [os.path.relpath(p_, work) for p_ in paths]
+            rec['path_form'] = ['file list', 'directory', 'directory with trailing slash',
+                                'relative paths'][form]
+            rec['observed'], rec['n_rows'] = observe(paths)
+        finally:
+            os.chdir(cwd)
     except Exception as ex:
         import traceback
         tb = traceback.extract_tb(ex.__traceback__)
